@@ -295,6 +295,10 @@ impl Scanner {
             if self.ch == '"' || self.ch == '\0' {
                 break;
             }
+            // keep the line count right after a string literal that spans lines
+            if self.ch == '\n' {
+                self.line += 1;
+            }
         }
         let the_str: String = self.input[position..self.position].iter().collect();
         if self.ch == '"' {
